@@ -23,6 +23,7 @@ x[i] = (((a i^2 + b i + c) mod M) - M//2) * 2^exp overridden by explicit
 |mantissa| < 2^24 and e >= -30, so nothing is subnormal and sums never are.
 """
 import functools
+import json
 import math
 
 import numpy as np
@@ -453,11 +454,15 @@ def make_leaf(leaf):
   x32 = x64.astype(np.float32)
   assert np.array_equal(x32.astype(np.float64), x64)
   arr = x32.reshape(shape)
+  if (leaf.get('as_int') and size and np.array_equal(x64, np.rint(x64)) and
+      float(np.abs(x64).max()) < 2 ** 24):
+    # integer-typed parameters / counters: same values, integer dtype
+    arr = arr.astype(np.int32)
   kind = leaf.get('container', 'np')
   if kind == 'jnp':
     arr = jnp.asarray(arr)
   elif kind == 'np_scalar' and shape == ():
-    arr = np.float32(arr)
+    arr = arr.dtype.type(arr)
   return arr, x64, shape
 
 
@@ -551,8 +556,11 @@ def run_rotation(case):
   # Same key, same rotation (bit for bit); R(2x) == 2 R(x) (D does not depend on x).
   y_again, _ = guarded('rotation', wh.structured_rotation, arr, key_array(case['key']))
   require(np.array_equal(np.asarray(y_again), ctx['y']), 'rotation:same_key_not_deterministic')
+  # (the doubled input keeps the dtype of the input: integer inputs take an
+  # exact integer path through the transform, float inputs a rounded one)
+  two = np.asarray(arr).dtype.type(2)
   y_twice, _ = guarded('rotation', wh.structured_rotation,
-                        np.asarray(arr) * np.float32(2), key)
+                        np.asarray(arr) * two, key)
   require(np.array_equal(np.asarray(y_twice), ctx['y'] * np.float32(2)),
           'rotation:not_homogeneous', 'R(2x, key) != 2 R(x, key)')
 
@@ -578,17 +586,26 @@ def run_rotation(case):
   return out
 
 
-def build_tree(node):
-  """JSON tree -> (pytree handed to fedjax, list of (leaf json) in flatten order)."""
+def build_tree(node, tied=None):
+  """JSON tree -> (pytree handed to fedjax, list of (leaf json) in flatten order).
+
+  Leaves marked 'tie' with the same description are ONE array object placed at
+  several positions of the tree (tied / shared weights)."""
+  tied = {} if tied is None else tied
   if 'leaf' in node:
+    if node.get('tie'):
+      key = json.dumps(node['leaf'], sort_keys=True)
+      if key not in tied:
+        tied[key] = make_leaf(node['leaf'])[0]
+      return tied[key]
     arr, _, _ = make_leaf(node['leaf'])
     return arr
   if 'd' in node:
-    return {k: build_tree(v) for k, v in node['d'].items()}
+    return {k: build_tree(v, tied) for k, v in node['d'].items()}
   if 'l' in node:
-    return [build_tree(v) for v in node['l']]
+    return [build_tree(v, tied) for v in node['l']]
   if 't' in node:
-    return tuple(build_tree(v) for v in node['t'])
+    return tuple(build_tree(v, tied) for v in node['t'])
   raise ValueError(node)
 
 
@@ -864,7 +881,8 @@ def leaf_strategy(draw, shapes, free_dim_max):
                                 st.sampled_from([x for x in shapes if _is_nt_shape(x)]))))
   container = draw(st.sampled_from(['np', 'np', 'jnp', 'np_scalar'] if not shape
                                    else ['np', 'np', 'jnp']))
-  return {'shape': shape, 'container': container, 'vec': draw(vec_strategy('f32'))}
+  return {'shape': shape, 'container': container, 'vec': draw(vec_strategy('f32')),
+          'as_int': draw(st.integers(0, 3)) == 0}
 
 
 @st.composite
@@ -889,7 +907,13 @@ def tree_strategy(draw, tier):
   if kind == 'empty':
     return draw(st.sampled_from([{'d': {}}, {'l': []}, {'d': {'a': {'d': {}}}}]))
   if kind == 'dict':
-    return {'d': draw(st.dictionaries(_names, leaf, min_size=1, max_size=4))}
+    d = draw(st.dictionaries(_names, leaf, min_size=1, max_size=4))
+    if draw(st.integers(0, 2)) == 0:
+      # the very same array object a second time (tied weights)
+      src = sorted(d)[draw(st.integers(0, len(d) - 1))]
+      d[src] = dict(d[src], tie=True)
+      d['tied_' + src] = dict(d[src])
+    return {'d': d}
   if kind == 'list':
     return {'l': draw(st.lists(leaf, min_size=1, max_size=4))}
   if kind == 'tuple':
